@@ -233,17 +233,24 @@ def r01_4(prog, rep):
         rep.ok(rid, "callers/refill", "src/evical.c", "refill() is reached only through the rrule stream's next method")
     else:
         rep.fail(rid, "callers/refill", "src/evical.c", "refill() is called from %s" % who)
-    # consumers use the stream interface only: echse unroll and the daemon's unwinder
-    for fname, file in (("unroll_frmt", "echse.c"), ("unwind_till", "echsd.c")):
-        if not prog.has_fn(fname, file):
-            rep.fail(rid, "consumer/%s" % fname, "src/" + file, "consumer function vanished")
-            continue
-        g = prog.fn(fname, file)
-        used = {c[2].get("fn") for c in g.all_calls()}
-        if used & {"echs_evstrm_pop", "echs_evstrm_next"} and not (used & set(names)) and "refill" not in used:
-            rep.ok(rid, "consumer/%s" % fname, g.loc(), "obtains occurrences through echs_evstrm_next/pop only")
+    # consumers use the stream interface only: echse unroll and the daemon (whichever function holds the unwinding loop)
+    for label, file in (("unroll_frmt", "echse.c"), ("unwind_till", "echsd.c")):
+        users, direct = [], []
+        for g in prog.fns_in(file):
+            if not g.cfg or g.file != file:
+                continue
+            used = {c[2].get("fn") for c in g.all_calls()}
+            if used & {"echs_evstrm_pop", "echs_evstrm_next"}:
+                users.append(g.name)
+            if used & (set(names) | {"refill"}):
+                direct.append((g.name, sorted(used & (set(names) | {"refill"}))))
+        key = "consumer/%s" % label
+        if direct:
+            rep.fail(rid, key, "src/" + file, "does not consume the stream interface exclusively: %s" % direct)
+        elif not users:
+            rep.fail(rid, key, "src/" + file, "no function of %s obtains occurrences through echs_evstrm_next/pop any more" % file)
         else:
-            rep.fail(rid, "consumer/%s" % fname, g.loc(), "does not consume the stream interface exclusively (%s)" % sorted(x for x in used if x))
+            rep.ok(rid, key, "src/" + file, "%s obtains occurrences through echs_evstrm_next/pop only (%s)" % (file, ", ".join(sorted(users))))
 
 
 def run(prog, rep, tier, snap):
